@@ -3,6 +3,8 @@ CONSTANTS
   Family = "A3"
   RndN = 5
   RndK = 8
+  Grows = TRUE
 INVARIANT EquivOnADMG
 INVARIANT SigmaLaws
+PROPERTY GrowAntiMonotone
 CHECK_DEADLOCK FALSE
